@@ -330,6 +330,9 @@ def run_check(modname: str, tier: str) -> int:
     unknown = sorted(s for s in by_sig if s not in known)
     for s in known_hit:
         print(f"KNOWN-FINDING: property={prop} {s} :: {known[s]} (seen {len(by_sig[s])}x this run)", flush=True)
+    if os.environ.get("VERIF_LIST_SIGS"):
+        for s_ in sorted(by_sig):
+            print(f"SIG {len(by_sig[s_]):6d} {s_} :: {by_sig[s_][0].get('what', '')[:300]}", flush=True)
     n_viol = 0
     min_budget = float(os.environ.get("VERIF_MINIMISE_S", plan.get("minimise_s", 45)))
     for s in unknown[:5]:
